@@ -143,9 +143,7 @@ where
     P: std::fmt::Debug,
 {
     debug_assert!(absolute_path.as_ref().is_absolute());
-    let mut url = config
-        .hyperlinks_file_link_format
-        .replace("{path}", &absolute_path.as_ref().to_string_lossy());
+    let mut url = config.hyperlinks_file_link_format.clone();
     if let Some(host) = &config.hostname {
         url = url.replace("{host}", host)
     }
@@ -154,6 +152,8 @@ where
     } else {
         url = url.replace("{line}", "")
     };
+    // (last: a path may itself contain `{line}`)
+    url = url.replace("{path}", &absolute_path.as_ref().to_string_lossy());
     Cow::from(format_osc8_hyperlink(&url, text))
 }
 
